@@ -522,6 +522,15 @@ func (s *Module) AddBlock(block *block.Block) error {
 		if !block.MerkleRoot.Equals(merkle) {
 			return fmt.Errorf("invalid block: MerkleRoot mismatch: expected %s, got %s", merkle.StringLE(), block.MerkleRoot.StringLE())
 		}
+		// The Merkle tree duplicates the last leaf of an odd level, so the
+		// root doesn't tell a list from the one with its tail repeated.
+		seen := make(map[util.Uint256]struct{}, len(block.Transactions))
+		for _, tx := range block.Transactions {
+			if _, ok := seen[tx.Hash()]; ok {
+				return fmt.Errorf("invalid block: duplicate transaction %s", tx.Hash().StringLE())
+			}
+			seen[tx.Hash()] = struct{}{}
+		}
 	}
 	expectedH := s.bc.GetHeaderHash(block.Index)
 	if !block.Hash().Equals(expectedH) {
